@@ -7,6 +7,13 @@ import traceback
 sys.path.insert(0, os.path.dirname(os.path.abspath(__file__)))
 import core  # noqa: E402
 
+try:        # `kill -USR1 <pid>` prints the stacks of all threads (diagnosis of a check that does not return)
+    import faulthandler
+    import signal
+    faulthandler.register(signal.SIGUSR1, all_threads=True)
+except Exception:  # noqa
+    pass
+
 
 def main(argv):
     if len(argv) < 2:
